@@ -62,6 +62,35 @@ class Point:
         return self.sizes[key]
 
 
+def space_rows(key, pt: Point):
+    """indices iterated by a sum / reduction over the space `key`: 0..n-1, or — for a sub-space ("sub", base, mask) — the
+    rows of the base space on which the mask holds (the mask is evaluated with its index variables bound to the row)"""
+    if isinstance(key, tuple) and len(key) == 3 and key[0] == "sub" and isinstance(key[2], Expr):
+        base_rows = space_rows(key[1], pt)
+        mask = key[2]
+        ivs = sorted(sym.free_ivars(mask))
+        saved = {iv: pt.ivs.get(iv) for iv in ivs}
+        out = []
+        try:
+            for k in base_rows:
+                for iv in ivs:
+                    pt.ivs[iv] = k
+                try:
+                    keep = bool(ev(mask, pt))
+                except NotEvaluable:
+                    raise
+                if keep:
+                    out.append(k)
+        finally:
+            for iv, v in saved.items():
+                if v is None:
+                    pt.ivs.pop(iv, None)
+                else:
+                    pt.ivs[iv] = v
+        return out
+    return list(range(pt.size(key)))
+
+
 def ev(e: Expr, pt: Point):
     t = e[0]
     if t == "num":
@@ -79,7 +108,10 @@ def ev(e: Expr, pt: Point):
     if t == "sym":
         return pt.symv(e[1])
     if t == "size":
-        return float(pt.size(e[1]))
+        k_ = e[1]
+        if isinstance(k_, tuple) and len(k_) == 3 and k_[0] == "sub" and isinstance(k_[2], Expr):
+            return float(len(space_rows(k_, pt)))
+        return float(pt.size(k_))
     if t == "iv":
         return float(pt.iv(e[1]) + e[2])
     if t == "lin":
@@ -147,10 +179,9 @@ def ev(e: Expr, pt: Point):
             return math.nan
         raise NotEvaluable(f"fn {name}")
     if t == "sum":
-        n = pt.size(e[2])
         saved = pt.ivs.get(e[1])
         s = 0.0
-        for k in range(n):
+        for k in space_rows(e[2], pt):
             pt.ivs[e[1]] = k
             s += ev(e[3], pt)
         if saved is None:
@@ -159,10 +190,9 @@ def ev(e: Expr, pt: Point):
             pt.ivs[e[1]] = saved
         return s
     if t == "red":
-        n = pt.size(e[3])
         saved = pt.ivs.get(e[2])
         vals = []
-        for k in range(n):
+        for k in space_rows(e[3], pt):
             pt.ivs[e[2]] = k
             vals.append(ev(e[4], pt))
         if saved is None:
